@@ -1,7 +1,60 @@
-(* C05 -- placeholder; theorems are added from proofs/ *)
-Require Import Coq.Lists.List Coq.NArith.NArith.
-From Mustache Require Import Res Manager.
+(* C05 -- changes made while locked are isolated, then applied faithfully at unlock.
+   Statements only. The model is Manager.v (tied to the code by the tier-B correspondence of ./check C05). *)
+Require Import Coq.Lists.List Coq.NArith.NArith Coq.ZArith.ZArith.
+From Mustache Require Import Res Manager Palette MgrSpec Refine.
+From Mustache.proofs Require Import ManagerIsolation.
 Import ListNotations.
-Example C05_placeholder : mitems 5%N = [0; 2].
+
+(* (1) isolation: while the manager is locked, a creation / destruction / assignment / removal issued from ANY thread id
+   (with or without value, typed or by id) leaves everything observable unchanged: slot table, locations, free list,
+   every archetype (members, columns, stamps), pending destroy set, dependencies, shared pool, world version, lock depth.
+   Only the command buffers, their temporaries and the id counter move. For every state, not only reachable ones. *)
+Theorem C05_isolation : forall s o s' r,
+  lockc s <> 0 -> is_structural o = true -> step s o = Ok (s', r) -> observe s' = observe s.
+Proof. exact isolation_while_locked. Qed.
+Print Assumptions C05_isolation.
+
+(* (2) only the outermost unlock flushes *)
+Theorem C05_nested_unlock : forall s n,
+  lockc s = S (S n) -> step s OUnlock = Ok (set_lock s (S n), RBool false).
+Proof. exact nested_unlock_does_not_flush. Qed.
+Print Assumptions C05_nested_unlock.
+
+(* (3) commands whose target is not alive at the moment their pack is applied are skipped *)
+Theorem C05_dead_target_skipped : forall tid s c t,
+  (match c with ACreate _ _ _ _ => False | _ => True end) ->
+  is_valid s (cmd_handle c) = false -> apply_pack tid s (c :: t) = Ok s.
+Proof. exact dead_target_pack_skipped. Qed.
+Print Assumptions C05_dead_target_skipped.
+
+(* (4) FULL STATEMENT of the second sentence (flush = sequential application in thread order / program order):
+   Refine.refinement_statement.  It is NOT proved in general here: it is evaluated on the concrete scripts below
+   inside Coq, and on every generated script by the tier-A/tier-B correspondence runs.  The excluded patterns are
+   the open known findings (a pack that assigns and removes the same component; program order lost inside a pack
+   where dependencies are involved). *)
+Definition C05_flush_faithful_statement := refinement_statement.
+
+Definition cis3 : list cinfo := [pal_info 0 0; pal_info 2 0; pal_info 3 0].
+(* two worker threads and the owner record interleaved commands on shared and fresh entities *)
+Definition script_a : list xop :=
+  [XoCreate 0 1 [] false; XoCreate 0 3 [] false; XoUpdate; XoLock; XoLock;
+   XoAssign 1 0 1 (Some 5%Z); XoCreate 2 4 [] false; XoAssign 2 2 0 (Some 9%Z); XoDestroyNow 1 1;
+   XoRemove 0 0 0 true; XoDestroy 2 0; XoCreate 1 1 [] false; XoDestroyNow 1 3;
+   XoUnlock; XoAssign 0 2 1 None; XoUnlock; XoUpdate]%N.
+Example C05_flush_faithful_on_script_a : refines_on true 16 cis3 script_a = true /\ refines_on false 16 cis3 script_a = true.
+Proof. split; vm_compute; reflexivity. Qed.
+
+(* a command on an entity that another thread's buffer destroys first is skipped *)
+Definition script_b : list xop :=
+  [XoCreate 0 1 [] false; XoUpdate; XoLock; XoAssign 2 0 1 (Some 7%Z); XoDestroyNow 1 0; XoUnlock]%N.
+Example C05_flush_faithful_on_script_b : refines_on true 16 cis3 script_b = true.
 Proof. vm_compute. reflexivity. Qed.
-Print Assumptions C05_placeholder.
+
+(* the open finding, as a theorem about the faithful model: an in-contract script on which unlock fails *)
+Theorem C05_pack_assign_then_remove_refuted :
+  exists ops, x_viol (xrun 16 cis3 ops) = 0 /\ mrun true 16 cis3 ops = Err NullDeref.
+Proof.
+  exists [XoCreate 0 1 [] false; XoLock; XoAssign 0 0 1 (Some 5%Z); XoRemove 0 0 1 true; XoUnlock]%N.
+  split; vm_compute; reflexivity.
+Qed.
+Print Assumptions C05_pack_assign_then_remove_refuted.
